@@ -71,8 +71,23 @@ func (c CharCfg) Recipe() spg.CharRecipe {
 	if c.RequireSets != nil {
 		rs = append([]string{}, c.RequireSets...)
 	}
+	if c.viaConstructor() {
+		// the documented constructor, then every field set: whatever NewCharRecipe attaches to the
+		// values it makes (and to their copies) is exercised for about half of the configurations
+		r := spg.NewCharRecipe(c.Length)
+		r.Allow, r.Require, r.Exclude = spg.CTFlag(c.Allow), spg.CTFlag(c.Require), spg.CTFlag(c.Exclude)
+		r.AllowChars, r.ExcludeChars, r.RequireSets = c.AllowChars, c.ExcludeChars, rs
+		return *r
+	}
 	return spg.CharRecipe{Length: c.Length, Allow: spg.CTFlag(c.Allow), Require: spg.CTFlag(c.Require),
 		Exclude: spg.CTFlag(c.Exclude), AllowChars: c.AllowChars, ExcludeChars: c.ExcludeChars, RequireSets: rs}
+}
+
+// viaConstructor is a fixed function of the configuration, so that a replay builds the recipe the
+// same way: struct literal or spg.NewCharRecipe.
+func (c CharCfg) viaConstructor() bool {
+	h := c.Length*31 + len(c.AllowChars)*7 + len(c.ExcludeChars)*5 + len(c.RequireSets)*3 + int(c.Allow^c.Require<<3^c.Exclude<<6)
+	return h%2 == 0
 }
 
 func (c CharCfg) String() string {
@@ -295,6 +310,7 @@ type MList struct {
 }
 
 func modelList(input []string) *MList {
+	input = realWords(input)
 	u := strset{}
 	for _, w := range input {
 		u[w] = true
